@@ -144,7 +144,7 @@ def auth_case(rng, cid):
 
 
 def gen_cases(rng, tier):
-    n = {"quick": 2400, "thorough": 40000, "search": 12000}.get(tier, 2400)
+    n = {"quick": 1600, "thorough": 40000, "search": 12000}.get(tier, 1600)
     out = []
     for i in range(n):
         r = i % 10
